@@ -281,3 +281,49 @@ def hostile_scn(case, res):
             S.shutdown()
         return S.ops[:25]
     sim_case(case, res, body)
+
+
+PREFIX_MESSAGES = VALID_SESSION + [
+    {"id": 10, "method": "add", "params": {"path": "p/x", "value": [[], {}, [1, [2, [3, {"a": {"b": [None, True, False, 1e3, -0.5, "\\\"ü"]}}]]]], "access": {"fetchGroups": ["a", "b"], "setGroups": []}}},
+    {"id": 11, "result": {"a": 1, "b": [1, 2, 3]}},
+    {"id": "12", "error": {"code": -1, "message": "m", "data": {"x": [1, 2]}}},
+]
+
+
+@scenario("hostile-prefixes")
+def hostile_prefixes(case, res):
+    """every proper prefix of a valid message arrives as a complete frame of its own, each on a connection whose read buffer
+    has never held anything else (what lies behind the message in the buffer was never written by anybody)"""
+    prm = case["params"]
+
+    def body(S, rng):
+        S.tolerate_unknown_forwards = True
+        W = Witness(S, rng)
+        S.settle()
+        msg = PREFIX_MESSAGES[prm["msg"] % len(PREFIX_MESSAGES)]
+        text = json.dumps(msg, separators=prm.get("separators", (", ", ": "))).encode()
+        t = prm["transport"]
+        for k in range(1, len(text)):
+            c = S.connect("p%d" % k, t)
+            c.ledger, c.track_input, c.may_close = False, False, True
+            if t == "ws":
+                S.handshake(c)
+            S.send_bytes(c, S.frame_for(c, text[:k]), None)
+            S.settle()
+            S.sig("prefix-ends-with", t, text[k - 1:k].decode("latin1"), text[k:k + 1].decode("latin1"))
+            if not (c.closed or c.ended):
+                S.end(c, "eof")
+            if k % 16 == 0:
+                W.tick()
+                S.settle()
+        S.ops.append(["prefixes", t, text.decode("latin1")[:120]])
+        S.settle()
+        for _ in range(3):
+            W.tick()
+            S.settle()
+        if W.w1.closed or W.w2.closed:
+            S.v("conn/witness-connection-dropped", "w1 closed=%s w2 closed=%s" % (W.w1.closed, W.w2.closed))
+        S.close_all()
+        S.shutdown()
+        return S.ops[:5]
+    sim_case(case, res, body)
